@@ -10,6 +10,7 @@ def run(tier, rep, work):
     quick = tier == "quick"
     storefam.model_check(rep, d, "StoreIdeal", "intended design (no deviation): AckedVisible NoZombie NoPhantom NoReuse NoOverwrite over every interleaving of client, flusher, compactor, eviction, crash, reopen; 2 docs, 1-doc memtables")
     storefam.model_check(rep, d, "StoreAsIs", "the code's deviation flags (shared templates, no merge, unguarded swap): every loss / resurrection is accounted for by the ghosts lost / leaked")
+    storefam.model_check(rep, d, "StoreLive", "liveness under (weak / strong) fairness of the worker steps, no state constraint: a requested background flush is served, a started flusher and a started search terminate")
     exe = C.build_harness()
     n = 40 if quick else 400
     storefam.run_store(rep, work, d, exe, "C08", tier, "memcap1/compact2", 0, n, memcap=1, compactn=2, seed=0)
